@@ -124,7 +124,7 @@ def sent_worker(_):
     return rows
 
 
-def check(ctx, rep: Report):
+def _check_main(ctx, rep: Report):
     # IF (shared with C01)
     rep.rules["C05.IF"] = "with _if=False the only outcome is `return self` with no event"
     for rows in pmap(c01.if_worker, list(ctx.helpers)):
@@ -260,11 +260,15 @@ def check(ctx, rep: Report):
     if not ok:
         rep.violate(Violation("C05.PIPE", "C05.PIPE|attrs", "mutate_value no longer assigns keyword attributes one by one in the order given", f"{fi.module.relpath}:{fi.node.lineno}", "mutate_value"))
 
+    resetall_rule(ctx, rep)
+
+
+def resetall_rule(ctx, rep, rule="C05.RESETALL"):
     # ---- RESETALL: reset() resets every attribute; an attribute with nothing to reset does not stop the others
-    rep.rules["C05.RESETALL"] = "ResetMethod.reset: AttributeError is handled per attribute (inside the loop)"
+    rep.rules[rule] = "ResetMethod.reset: AttributeError is handled per attribute (inside the loop)"
     rh = ctx.helpers.get("ResetMethod.reset")
     if rh is None:
-        raise AnalysisError("C05.RESETALL: ResetMethod.reset not found")
+        raise AnalysisError(f"{rule}: ResetMethod.reset not found")
     fn = rh.impl.node
     from .base import with_callees
     loops = []
@@ -288,6 +292,15 @@ def check(ctx, rep: Report):
             bad.append("attributes are not reset through delattr")
         if dels and not inner:
             bad.append("AttributeError is " + ("handled around the whole loop: the first attribute with nothing to reset silently stops the reset of all later attributes" if outer else "not handled: one unset attribute aborts reset()"))
-    rep.oblige("C05.RESETALL", "ResetMethod.reset", not bad, "; ".join(bad))
+    rep.oblige(rule, "ResetMethod.reset", not bad, "; ".join(bad))
     for b in bad:
-        rep.violate(Violation("C05.RESETALL", f"C05.RESETALL|{b[:60]}", f"ResetMethod.reset: {b}", f"{rh.impl.module.relpath}:{fn.lineno}", "ResetMethod.reset"))
+        rep.violate(Violation(rule, f"{rule}|{b[:60]}", f"ResetMethod.reset: {b}", f"{rh.impl.module.relpath}:{fn.lineno}", "ResetMethod.reset"))
+
+
+
+def check(ctx, rep):
+    from . import metarules, shared
+    _check_main(ctx, rep)
+    shared.own_namespace_lookups(ctx, rep, "C05.NS")
+    shared.unused_params(ctx, rep, "C05.PARAM", ["spec_classes.utils.mutation", "spec_classes.methods.scalar", "spec_classes.methods.toplevel"])
+    metarules.preparer_registration(ctx, rep, "C05.PREP")
